@@ -28,7 +28,63 @@
 #include "buffer.c"
 #include "evbuf_link.h"
 #include "evbuf_inv.h"
+
+/* ---- size concretisation between event_tagging.c and buffer.c (DESIGN 3.4: an evbuffer operation whose size argument is
+ * symbolic makes every later offset symbolic).  The sizes event_tagging.c passes are data dependent; the harness splits
+ * the inputs into classes in which they are known, publishes the class's sizes as CONCRETE candidates, and these wrappers
+ * call the real buffer.c function with the candidate that EQUALS the requested size -- checked: a request outside the
+ * candidate set is an assertion failure, so nothing is assumed about the library. ---- */
+#define VP_NCAND 6
+static size_t vp_cand[VP_NCAND]; static int vp_ncand;
+static void vp_cands(size_t a, size_t b, size_t c, size_t d, size_t e, size_t f, int n)
+{ vp_cand[0] = a; vp_cand[1] = b; vp_cand[2] = c; vp_cand[3] = d; vp_cand[4] = e; vp_cand[5] = f; vp_ncand = n; }
+static unsigned char *vp_t_pullup(struct evbuffer *b, ev_ssize_t n)
+{
+	int c;
+	for (c = 0; c < VP_NCAND; c++)
+		if (c < vp_ncand && (size_t)n == vp_cand[c]) return evbuffer_pullup(b, (ev_ssize_t)vp_cand[c]);
+	VP_ASSERT(0, "harness: evbuffer_pullup size outside the predicted class sizes");
+	__CPROVER_assume(0);
+	return NULL;
+}
+static int vp_t_drain(struct evbuffer *b, size_t n)
+{
+	int c;
+	for (c = 0; c < VP_NCAND; c++)
+		if (c < vp_ncand && n == vp_cand[c]) return evbuffer_drain(b, vp_cand[c]);
+	VP_ASSERT(0, "harness: evbuffer_drain size outside the predicted class sizes");
+	__CPROVER_assume(0);
+	return -1;
+}
+static int vp_t_add(struct evbuffer *b, const void *d, size_t n)
+{
+	int c;
+	for (c = 0; c < VP_NCAND; c++)
+		if (c < vp_ncand && n == vp_cand[c]) return evbuffer_add(b, d, vp_cand[c]);
+	VP_ASSERT(0, "harness: evbuffer_add size outside the predicted class sizes");
+	__CPROVER_assume(0);
+	return -1;
+}
+static int vp_t_remove(struct evbuffer *b, void *d, size_t n)
+{
+	int c;
+	for (c = 0; c < VP_NCAND; c++)
+		if (c < vp_ncand && n == vp_cand[c]) return evbuffer_remove(b, d, vp_cand[c]);
+	VP_ASSERT(0, "harness: evbuffer_remove size outside the predicted class sizes");
+	__CPROVER_assume(0);
+	return -1;
+}
+#ifdef VP_CBMC
+#define evbuffer_pullup vp_t_pullup
+#define evbuffer_drain vp_t_drain
+#define evbuffer_add vp_t_add
+#define evbuffer_remove vp_t_remove
+#endif
 #include "event_tagging.c"
+#undef evbuffer_pullup
+#undef evbuffer_drain
+#undef evbuffer_add
+#undef evbuffer_remove
 #include "tag_ref.h"
 
 enum { RT_INT = 1, RT_INT64, RT_TAG, RT_MINT, RT_MINT64, RT_TIMEVAL, RT_STRING, RT_RAW, RT_FIXED, RT_CONSUME, RT_BUFFER, RT_SEQ, RT_WRONGTAG };
@@ -45,6 +101,12 @@ enum { DEC_INT = 1, DEC_INT64, DEC_TAG, DEC_PEEK, DEC_PEEK_LENGTH, DEC_PAYLOAD_L
 #define VP_L 12           /* longest arbitrary byte string */
 #endif
 #define EXP_MAX 40
+
+/* Cuts WITH proof (props: --replace-calls): no buffer of this harness holds multicast or file-segment chains and no
+ * evbuffer is freed, so the only callers of these two are infeasible branches of evbuffer_chain_free that symex cannot
+ * prune by itself (flags are symbolic after a merge).  The replacement asserts that it is never reached. */
+void vp_cut_decref(struct evbuffer *b) { (void)b; VP_ASSERT(0, "harness: evbuffer_decref_and_unlock_ reached (no multicast chain and no evbuffer_free in this harness)"); __CPROVER_assume(0); }
+void vp_cut_segfree(struct evbuffer_file_segment *s) { (void)s; VP_ASSERT(0, "harness: evbuffer_file_segment_free reached (no file segment in this harness)"); __CPROVER_assume(0); }
 
 static struct evbuffer *B;
 static unsigned char vp_exp[EXP_MAX]; static size_t vp_explen;
@@ -311,8 +373,12 @@ void harness_decode(void)
 	unsigned char *a1, *a2; size_t i;
 	ev_uint32_t rt = 0, rl = 0; int rh;
 
+#ifdef VP_WL            /* concrete length and split (enumerated by the driver) */
+	WL = VP_WL; WK = VP_WK;
+#else
 	WL = vp_range(0, VP_L); WK = vp_range(0, VP_L);
 	__CPROVER_assume(WK <= WL);
+#endif
 	vp_bytes(W, VP_L);
 #ifdef KF_EXCLUDE_TAG6
 	/* predicate of the known finding: five continuation bytes of a tag still admissible at the fifth, then more data */
@@ -339,21 +405,37 @@ void harness_decode(void)
 
 #if DEC == DEC_INT || DEC == DEC_INT64
 	{
+		size_t k;
 #if DEC == DEC_INT
-		ev_uint32_t o = 0; int r = evtag_decode_int(&o, B); int maxn = 8;
+		ev_uint32_t o = 0; int r; int maxn = 8;
 #else
-		ev_uint64_t o = 0; int r = evtag_decode_int64(&o, B); int maxn = 16;
+		ev_uint64_t o = 0; int r; int maxn = 16;
 #endif
 		ev_uint64_t rv = 0; int rn = tagref_dec_int(W, WL, maxn, &rv);
-		VP_ASSERT(r == 0 || r == -1, "C42: evtag_decode_int returns 0 or -1");
-		if (r == 0) {
-			VP_ASSERT(rn > 0, "C42: integer decoder accepted bytes that are not a well-formed integer");
-			VP_ASSERT((ev_uint64_t)o == rv, "C42: integer decoder returned a wrong value");
-			check_rest((size_t)rn);
-			VP_WITNESS("C42 integer decoded");
-		} else {
-			VP_WITNESS("C42 integer rejected");
+		/* classes: not a well-formed integer (k == 0: the decoder may look at 1 byte) / encoded size k */
+		for (k = 0; k <= 9; k++) {
+			if ((rn < 0 ? 0 : (size_t)rn) != k) continue;
+#ifdef VP_ONLYK
+			if (k != VP_ONLYK) continue;
+#endif
+			vp_cands(1, k, 0, 0, 0, 0, 2);
+#if DEC == DEC_INT
+			r = evtag_decode_int(&o, B);
+#else
+			r = evtag_decode_int64(&o, B);
+#endif
+			VP_ASSERT(r == 0 || r == -1, "C42: evtag_decode_int returns 0 or -1");
+			if (r == 0) {
+				VP_ASSERT(rn > 0, "C42: integer decoder accepted bytes that are not a well-formed integer");
+				VP_ASSERT((ev_uint64_t)o == rv, "C42: integer decoder returned a wrong value");
+				check_rest((size_t)rn);
+				VP_WITNESS("C42 integer decoded");
+			} else {
+				VP_WITNESS("C42 integer rejected");
+			}
+			return;
 		}
+		VP_ASSERT(0, "harness: input outside every size class");
 	}
 #elif DEC == DEC_TAG || DEC == DEC_PEEK
 	{
